@@ -275,6 +275,21 @@ def run(rep: Report) -> None:
                               f"writes shared state {sorted({w.location for w in ws})} inside a memoised function"), fi.where())
     # R20.3
     n3 = 0
+    # functions that only Dimension.define calls (its own helpers) run at definition time as well
+    callers: Dict[str, Set[str]] = {}
+    for q0 in prog.functions:
+        for cs in resolver.callsites(q0):
+            for t in cs.targets:
+                callers.setdefault(t, set()).add(q0)
+    definition_time = {"Dimension.define"}
+    grew = True
+    while grew:
+        grew = False
+        for t, cs_ in callers.items():
+            if t not in definition_time and cs_ and cs_ <= definition_time and prog.functions[t].cls == "Dimension" \
+                    and prog.functions[t].name.startswith("_") and not prog.functions[t].name.startswith("__"):
+                definition_time.add(t)
+                grew = True
     for q, fi in prog.functions.items():
         if fi.name == "__new__":
             continue       # the shipped test helpers (measured.pytest, measured.hypothesis) are package code like any other
@@ -282,7 +297,7 @@ def run(rep: Report) -> None:
         if not ws:
             continue
         n3 += 1
-        if q == "Dimension.define":
+        if q in definition_time:
             rep.ok("R20.3", q, note="definition-time resize of every key (listed, not armed: happens while fundamental dimensions are declared)")
         else:
             rep.fail("R20.3", q, f"{q} writes an intern table outside the interning constructors ({ws[0].how})", fi.where(ws[0].node))
